@@ -19,6 +19,7 @@ func checkC19(p *Prog, r *Report) {
 	}
 	ruleC19Order(p, a, r)
 	ruleC19Param(p, a, r)
+	ruleArgScope(p, a, r, "R-C19-ARGSCOPE")
 	ruleC19Unknown(p, a, r)
 	ruleC19Reg(p, a, r)
 	ruleC19Grow(p, a, r)
